@@ -14,7 +14,9 @@ THEOREMS = core.theorems_in(['C13a.lean', 'C13b.lean', 'C13c.lean'], 'Flowdyn.C1
     ['Flowdyn.C12.%s_odd' % l for l in ('minmod', 'superbee', 'vanalbada', 'vanleer')] + \
     ['Flowdyn.C12.minmod_homogeneous', 'Flowdyn.C12.superbee_homogeneous', 'Flowdyn.C12.vanalbada_homogeneous_bound', 'Flowdyn.C12.vanleer_homogeneous_bound']
 AUDIT_IMPORTS = ['Flowdyn.Props.C02', 'Flowdyn.Props.C12']
-PARTIAL = {"driver / implicit": "every explicit step loop is proved equivariant under any additive map intertwining the operators (C13c); the lift through the driver loop (time step invariance) and the implicit family is checked by the sweep (implicit: known finding K3)",
+AUDIT_IMPORTS = AUDIT_IMPORTS + ['Flowdyn.Props.C07c', 'Flowdyn.Props.C14b']
+THEOREMS = THEOREMS + ['Flowdyn.C07.run_equivariant', 'Flowdyn.C07.run_equivariant_on', 'Flowdyn.C07.run_equivariant_results', 'Flowdyn.C07.run_equivariant_final', 'Flowdyn.C07.timeMap_mul'] + ['Flowdyn.C14.solve_equivariant_%s' % k for k in ('rk', 'ls', 'explicit', 'rk2', 'rk_local', 'ls_local', 'explicit_local')]
+PARTIAL = {"driver / implicit": "every explicit step loop is proved equivariant under any additive map intertwining the operators (C13c) and the lift through the whole driver loop (save times, stop criteria, monitors, snapshots) is proved for any morphism of driver configurations, including a rescaling of time by a positive factor (C07c.run_equivariant, timeMap_mul; C14b.solve_equivariant_* for every explicit integrator with an invariant time-step rule); the instantiation of the time-rescaling morphism at integrator level and the implicit family are checked by the sweep (implicit: known finding K3)",
            "units with regularised limiters": "vanalbada/vanleer are homogeneous only up to the C12 bound: known finding K1",
            "HLLC": "the Euler instantiation of the hypotheses of rhs_mirror (eulerBC_mirror, eulerC2P_mirror, eulerFlux_mirror) excludes HLLC, whose mirror law (C02.eHllc_mirror) holds away from the measure-zero set sM = 0",
            "bit for bit": "a binary64 statement: observed on the implementation by the sweep"}
@@ -201,7 +203,7 @@ def oracle(ctx, seeds=None):
     # ---------------- change of units through the driver: snapshots of the rescaled twin, extreme time factors included
     for i in range(ctx.n(16, 200)):
         model = str(rng.choice(['conv', 'burgers', 'euler', 'sw']))
-        cfg = cfg1d.rand_config(rng, model=model, per=True, n=int(rng.integers(4, 8)), meshkind='uni', smooth=True,
+        cfg = cfg1d.rand_config(rng, units=False, model=model, per=True, n=int(rng.integers(4, 8)), meshkind='uni', smooth=True,
                                 scheme=['muscl', 'minmod'] if i % 2 else ['extrapol1'])
         if model == 'burgers':
             cfg['prim'] = [[float(x) for x in (2.0 + 0.4 * rng.uniform(-1, 1, cfg['n']))]]
